@@ -128,6 +128,11 @@ func (c *Context) Copy() *Context {
 	ctx.Resp = &ctx.writer
 	ctx.handlers = nil
 	ctx.index = abortIndex
+	// Notice: the backing array of c.Errors is reused for the next request (see Reset()),
+	// the copy must not share it.
+	if len(c.Errors) > 0 {
+		ctx.Errors = append([]error(nil), c.Errors...)
+	}
 	return &ctx
 }
 
